@@ -481,26 +481,37 @@ func (s *Super) confirm(v *Viol, n int) bool {
 	if v.Kind == "offline" {
 		return true
 	}
-	tag := fmt.Sprintf(".confirm%d", n)
-	args := []string{"child", s.o.Prop.ID, s.o.Tier, "--shard", "0", "--of", "1",
-		"--seed", strconv.FormatUint(s.o.Seed, 10), "--out", s.RunDir, "--tag", tag, "--only", v.Unit}
-	code, _ := s.runChild(args, fmt.Sprintf("shard-0%s.stderr", tag))
-	j, err := readJournal(filepath.Join(s.RunDir, fmt.Sprintf("shard-0%s.journal", tag)))
-	if err != nil {
-		return false
+	// a violation that depends on the schedule of goroutines (race-detector properties) need not show in every
+	// execution of its unit: the confirmation is tried up to three times there
+	attempts := 1
+	if s.o.Prop.Race {
+		attempts = 3
 	}
-	for _, r := range j.recs {
-		switch {
-		case r.T == "viol" && r.Key == v.Key:
-			return true
-		case r.T == "budget" && r.Key+"|budget" == v.Key:
-			return true
-		case r.T == "mem" && r.Key+"|mem" == v.Key:
+	for a := 0; a < attempts; a++ {
+		tag := fmt.Sprintf(".confirm%d", n)
+		if a > 0 {
+			tag = fmt.Sprintf(".confirm%d.%d", n, a)
+		}
+		args := []string{"child", s.o.Prop.ID, s.o.Tier, "--shard", "0", "--of", "1",
+			"--seed", strconv.FormatUint(s.o.Seed, 10), "--out", s.RunDir, "--tag", tag, "--only", v.Unit}
+		code, _ := s.runChild(args, fmt.Sprintf("shard-0%s.stderr", tag))
+		j, err := readJournal(filepath.Join(s.RunDir, fmt.Sprintf("shard-0%s.journal", tag)))
+		if err != nil {
+			continue
+		}
+		for _, r := range j.recs {
+			switch {
+			case r.T == "viol" && r.Key == v.Key:
+				return true
+			case r.T == "budget" && r.Key+"|budget" == v.Key:
+				return true
+			case r.T == "mem" && r.Key+"|mem" == v.Key:
+				return true
+			}
+		}
+		if v.Kind == "crash" && !j.done && code != 0 {
 			return true
 		}
-	}
-	if v.Kind == "crash" && !j.done && code != 0 {
-		return true
 	}
 	// The unit alone does not reproduce it: the violation may depend on state that earlier units of the same shard
 	// left behind in the process (package-level pools, caches).  Re-execute the shard up to and including the unit.
